@@ -7,6 +7,7 @@ import (
 	"reflect"
 	"sort"
 	"strings"
+	"time"
 	"unicode/utf8"
 )
 
@@ -122,8 +123,28 @@ func keyString(v Value) string {
 }
 
 // toGo builds the Go value the harness hands to the engine.
+var reverseInsertion bool
+
+type ptrHolder struct {
+	P *int
+	N int
+}
+
 func toGo(v Value) interface{} {
 	switch v.T {
+	case "time":
+		return time.Unix(int64(v.I), 0).UTC()
+	case "ptrstruct": // a struct with a pointer field: its text must not show the address
+		n := v.I
+		return ptrHolder{P: &n, N: v.I}
+	case "ptrptr":
+		n := v.I
+		p := &n
+		return &p
+	case "func":
+		return func() {}
+	case "chan":
+		return make(chan int)
 	case "null":
 		return nil
 	case "bool":
@@ -207,6 +228,12 @@ func toGo(v Value) interface{} {
 			return out
 		}
 		out := map[string]interface{}{}
+		if reverseInsertion {
+			for i := len(v.Ks) - 1; i >= 0; i-- {
+				out[keyString(v.Ks[i])] = toGo(v.Vs[i])
+			}
+			return out
+		}
 		for i, k := range v.Ks {
 			out[keyString(k)] = toGo(v.Vs[i])
 		}
